@@ -56,7 +56,7 @@ def r16a(chk, rid='R16.a'):
     # initial value and tuple conversion
     cls = chk.repo.cls(SEL, 'New')
     init = [text(s) for s in cls.body if isinstance(s, ast.AnnAssign) and text(s.target) == 'specificity']
-    chk.ob(rid, SEL, 'New', 'specificity starts at [0, 0, 0, 0]', any('[0] * 4' in s for s in init), str(init))
+    chk.ob(rid, SEL, 'New', 'specificity starts at [0, 0, 0, 0]', any('[0] * 4' in s for s in init), str(init), shape=True)
     # CSS2 pseudo-elements written with one colon
     p = chk.repo.fn(SEL, 'New._pseudo')
     lits = set()
@@ -65,7 +65,7 @@ def r16a(chk, rid='R16.a'):
             lits |= {const(e) for e in n.comparators[0].elts}
     chk.ob(rid, SEL, 'New._pseudo', ':first-line :first-letter :before :after count as pseudo-elements', {':first-line', ':first-letter', ':before', ':after'} <= lits, str(sorted(map(str, lits))))
     src = text(p)
-    chk.ob(rid, SEL, 'New._pseudo', 'pseudo names are compared in normalised form', '_tokenvalue(token, normalize=True)' in ast.unparse(p), 'the four names would only be recognised in lower case')
+    chk.ob(rid, SEL, 'New._pseudo', 'pseudo names are compared in normalised form', '_tokenvalue(token, normalize=True)' in ast.unparse(p), 'the four names would only be recognised in lower case', shape=True)
 
 
 def produced_types(repo):
@@ -153,7 +153,7 @@ def r16b(chk, rid='R16.b'):
     # the serializer decides on the value shape, not on the type
     sm = chk.repo.mod(SER)
     fn = sm.get('CSSSerializer.do_css_Selector')
-    chk.ob(rid, SER, 'CSSSerializer.do_css_Selector', 'namespaced names are recognised by their tuple value', 'isinstance(val, tuple)' in ast.unparse(fn), 'serialisation would depend on a type list')
+    chk.ob(rid, SER, 'CSSSerializer.do_css_Selector', 'namespaced names are recognised by their tuple value', 'isinstance(val, tuple)' in ast.unparse(fn), 'serialisation would depend on a type list', shape=True)
 
 
 def r16c(chk, rid='R16.c'):
@@ -188,7 +188,7 @@ def r16d(chk, rid='R16.d'):
     app = [n for n in g.nodes if any(text(c.func) in ('self.seq.append', 'newseq.append') for c in cfgmod.calls_at(n))]
     chk.ob(rid, SELLIST, 'SelectorList.appendSelector', 'appends the new selector', bool(app), 'no append')
     dedupe = 'selectorText' in src and ('!=' in src or 'not in' in src or '==' in src)
-    chk.ob(rid, SELLIST, 'SelectorList.appendSelector', 'removes an equal selector (compared by selectorText) first', dedupe, 'duplicates would accumulate')
+    chk.ob(rid, SELLIST, 'SelectorList.appendSelector', 'removes an equal selector (compared by selectorText) first', dedupe, 'duplicates would accumulate', shape=True)
     loops = [n for n in ast.walk(fn) if isinstance(n, ast.For) and 'selectorText' in ast.unparse(n)]
     full = bool(loops) and not any(isinstance(x, ast.Break) for l in loops for x in ast.walk(l))
     chk.ob(rid, SELLIST, 'SelectorList.appendSelector', 'every member is compared (the scan does not stop at the first equal one)', full,
